@@ -22,6 +22,9 @@ def scenario(ctx, job):
         nchunks = job['chunks']
         b.add_proxies([nchunks + job.get('extra', 0), nchunks + job.get('extra', 0)])
         r = b.add_cluster(4 * nchunks); assert r.variant == 0
+        if job.get('narrow'):
+            # concrete balanced layout with one-slot tiles at both ends of the slot space: 0-0 and 16383-16383
+            b.symbolise_stable([0, 1, 0, 1], fixed_ends=[0, 8191, 16382])
         if job.get('roles'): b.symbolise_roles()
         if job.get('migrate'):
             r = b.call('auto_add_nodes', RStr('c1'), 4); assert r.variant == 0
@@ -88,7 +91,7 @@ def scenario(ctx, job):
         ctx.require_all(e, items)
         return len(proxies)
     def setup(e): e.max_steps = 80_000_000
-    res = ctx.explore('pipeline chunks=%d migrate=%s roles=%s limit=%s' % (job['chunks'], job.get('migrate'), job.get('roles'), job.get('limit', 0)), run, engine_setup=setup)
+    res = ctx.explore('pipeline chunks=%d migrate=%s roles=%s limit=%s%s' % (job['chunks'], job.get('migrate'), job.get('roles'), job.get('limit', 0), ' one-slot tiles' if job.get('narrow') else ''), run, engine_setup=setup)
     ctx.ops += sum(p.value or 0 for p in res if p.kind == 'ok')
     ctx.sample({'scenario': 'pipeline', 'paths': len(res)})
 
@@ -190,7 +193,7 @@ HISTORIES = [['A'], ['A', 'A'], ['A', 'A', ''], ['AB', 'B', 'B'], ['A', 'AB', 'B
 
 def run(ctx):
     quick = ctx.tier == 'quick'
-    jobs = [{'chunks': 1}, {'chunks': 1, 'roles': True}, {'chunks': 1, 'migrate': True, 'extra': 1}, {'chunks': 2}]
+    jobs = [{'chunks': 1}, {'chunks': 1, 'narrow': True}, {'chunks': 1, 'roles': True}, {'chunks': 1, 'migrate': True, 'extra': 1}, {'chunks': 2}]
     if not quick:
         jobs += [{'chunks': 2, 'roles': True}, {'chunks': 1, 'migrate': True, 'extra': 1, 'roles': True}, {'chunks': 1, 'migrate': True, 'extra': 1, 'limit': 1}, {'chunks': 2, 'migrate': True, 'extra': 1}]
     ctx.bounds = {'clusters': '1-2 chunks (+1 during a scale-out migration)', 'slot': 'symbolic over all 16384', 'role positions': 'enumerated', 'encoding': 'plain UMCTL SETCLUSTER arguments'}
